@@ -13,6 +13,7 @@ import (
 
 var (
 	configFilePath string
+	saveConfigLock sync.Mutex
 
 	loadedConfigValidationErrors     []*ValidationError
 	loadedConfigValidationErrorsLock sync.Mutex
@@ -62,6 +63,11 @@ func loadConfig(requireValidConfig bool) error {
 // It will acquire a read-lock on the global options registry
 // lock and must lock each option!
 func SaveConfig() error {
+	// Saving keeps every option locked until it is done and locks them in no
+	// particular order: two saves at the same time would deadlock on each other.
+	saveConfigLock.Lock()
+	defer saveConfigLock.Unlock()
+
 	optionsLock.RLock()
 	defer optionsLock.RUnlock()
 
